@@ -10,9 +10,10 @@ Open Scope Z_scope.
 Section Aux.
 Variable p : program.
 Variable rk : node -> nat.
+Variable sB : state.
 Hypothesis Hrk : forall n e d, alookup p n = Some e -> In d (expr_reads e) -> (rk d < rk n)%nat.
 
-Lemma MNPq_caller : forall Ex X inp c n s, MInvE p rk Ex X inp s -> MNPq c n s ->
+Lemma MNPq_caller : forall Ex X inp c n s, MInvE p rk sB Ex X inp s -> MNPq c n s ->
   c_pedantic (fq_caller c n s) = true \/ NPn s n \/ is_cq c = false.
 Proof.
   intros Ex X inp c n s HI H. destruct c as [|b rv pd prev| |]; cbn [fq_caller is_cq]; auto.
@@ -22,9 +23,9 @@ Proof.
     destruct (get_info s n) as [ci|] eqn:Eg.
     + destruct (nset_eqb (i_tfc ci) seen) eqn:Et; [|left; reflexivity].
       right. left. destruct (H n seen Ep) as [H1 H2].
-      destruct (mstored_kind _ _ _ _ _ _ _ _ HI Eg) as [K|[K|K]].
+      destruct (mstored_kind _ _ _ _ _ _ _ _ _ HI Eg) as [K|[K|K]].
       * right. intros j Hj F HF. assert (j = ci) by congruence. subst j.
-        destruct (mi_kind _ _ _ _ _ _ HI n ci Eg) as [(_ & _ & _ & T & _)|(K2 & _)]; [rewrite T in HF; destruct HF|].
+        destruct (mi_kind _ _ _ _ _ _ _ HI n ci Eg) as [(_ & _ & _ & T & _)|(K2 & _)]; [rewrite T in HF; destruct HF|].
         rewrite K in K2. discriminate.
       * left. auto.
       * right. intros j Hj F HF. assert (j = ci) by congruence. subst j.
